@@ -272,6 +272,9 @@ pub enum Step {
     /// an application payload delivered over a handshaken flow in several segments (cut positions
     /// monotone-mapped; biased towards CR / LF / SP / ':' boundaries by `snap`)
     SegSplit { flow: u8, pay: Pay, cuts: Vec<u16>, snap: bool },
+    /// another step's frame behind 1..3 stacked VLAN tags (TPID 0x8100 / 0x88a8 / 0x9100 / 0x9200,
+    /// VLAN id 0 = priority tag, 1, 4095, random), optionally cut short inside or right behind the tags
+    Vlan { tags: Vec<(u16, u16)>, inner: Box<Step>, trunc: Option<u8> },
     /// consistent IPv4 packet whose header options are a hostile TLV list (Record Route 7,
     /// Timestamp 68, LSRR 131, SSRR 137, Router Alert 148, Security 130, NOP, EOL, unknown kinds;
     /// length bytes 0, 1, 2, correct, beyond the options area, 255), padded to a multiple of 4;
@@ -300,6 +303,7 @@ impl Step {
             Step::Ip6 { .. } => "ip6-lies".into(),
             Step::Ip6Ext { .. } => "ip6-extension-headers".into(),
             Step::Ip4Opt { .. } => "ip4-hostile-options".into(),
+            Step::Vlan { inner, .. } => format!("vlan({})", inner.kind()),
             Step::Icmp { .. } => "icmp".into(),
             Step::Ns { .. } => "nd-ns".into(),
             Step::Udp { pay, .. } => format!("udp/{}", pay.kind()),
@@ -376,10 +380,15 @@ pub fn step_noise() -> BoxedStrategy<Step> {
         .boxed()
 }
 
+pub fn vlan_tags() -> impl Strategy<Value = Vec<(u16, u16)>> {
+    vec((prop::sample::select(vec![0x8100u16, 0x8100, 0x88a8, 0x9100, 0x9200]), prop_oneof![2 => Just(0u16), 1 => Just(1u16), 1 => Just(0x0fffu16), 1 => any::<u16>(), 1 => (0u16..8).prop_map(|p| p << 13)]), 1..=3)
+}
+
 pub fn step() -> BoxedStrategy<Step> {
     prop_oneof![
-        4 => step_leaf(),
-        1 => (step_leaf(), vec(bmut(), 1..3)).prop_map(|(s, muts)| Step::Mut { inner: Box::new(s), muts }),
+        8 => step_leaf(),
+        2 => (step_leaf(), vec(bmut(), 1..3)).prop_map(|(s, muts)| Step::Mut { inner: Box::new(s), muts }),
+        1 => (vlan_tags(), step_leaf(), prop::option::weighted(0.4, any::<u8>())).prop_map(|(tags, s, trunc)| Step::Vlan { tags, inner: Box::new(s), trunc }),
     ]
     .boxed()
 }
@@ -563,6 +572,16 @@ impl<'a> World<'a> {
             Step::Mut { inner, muts } => {
                 let f = self.realize(inner);
                 apply_bmuts(f, muts)
+            }
+            Step::Vlan { tags, inner, trunc } => {
+                let f = self.realize(inner);
+                let mut v = vlan_tagged(&f, tags);
+                if let Some(t) = trunc {
+                    // keep 12 + 0..=(4*tags + 6) bytes
+                    let k = 12 + (*t as usize) % (4 * tags.len() + 7);
+                    v.truncate(k.min(v.len()));
+                }
+                v
             }
         }
     }
